@@ -255,6 +255,7 @@ type World struct {
 	preferred  *vrt.Thread
 	batching   bool
 	uDialsLeftToFail int
+	staleDup   bool
 	manualUntrusted bool // C12: the untrusted peer only does what the explored events make it do
 	bursted    map[string]bool // sources that have relayed their burst
 	fetchFail  int // the next n GetOutputs calls of the application's output fetcher fail
